@@ -33,6 +33,16 @@ type Tree[K nodeKey, V any] interface {
 	Size() int
 }
 
+// terminated returns a copy of key followed by the 0x00 terminator that makes
+// byte-string keys prefix-free. Copying (instead of appending in place) leaves
+// the caller's slice and its spare capacity untouched and gives the tree a
+// buffer of its own.
+func terminated(key []byte) []byte {
+	out := make([]byte, len(key)+1)
+	copy(out, key)
+	return out
+}
+
 func longestCommonPrefix(key, other []byte, depth int) int {
 	maxCmp := min(len(key), len(other))
 
